@@ -4,7 +4,9 @@ Engine N: for every (type tree, value, protocol version) of the C01 grid the dri
 compared with the independent reference codec (vt.spec.values), the reference bytes -- including
 encodings only Cassandra produces: -1 length null elements, UDT values that stop before later-added
 fields -- are decoded by the driver and compared with the value, and a list of out-of-range values
-per type must raise instead of producing bytes.
+per type must raise instead of producing bytes.  Input-kind layer: every python input kind a scalar
+serializer accepts (datetime / date / str / int / float / wrapper objects / ipaddress ...) at the boundary
+values of the type, incl. every pre-epoch day with every non-zero time of day.
 """
 from vt.core import Part
 from vt.spec import values as V
@@ -27,7 +29,17 @@ META = {
             'image of each duration component (alone in each position, same-sign pairs in adjacent positions, all three equal), and as the '
             'serialized size (k<=3: up to 2^21+1 bytes) of an element of vector<E, 1..3> for 11 variable-width element kinds E (text incl. '
             'two-byte characters, ascii, varchar, blob, varint, decimal, tuple, list, map, UDT, nested vector) in every position; '
-            'the vector size writer/reader itself at every edge up to 2^31-1.',
+            'the vector size writer/reader itself at every edge up to 2^31-1. Input-kind layer (encode oracle; decode oracle for values new in the layer): '
+            'every python input kind a scalar serializer accepts, at the boundary values of the type, alone and as an element of list / tuple / '
+            'map value: date as datetime.date, naive datetime.datetime at 15 times of day (midnight, first/last microsecond, millisecond and second, '
+            'quarters, the times of +-2^31 s) on 31 days (epoch +-2, 0001-01-01/02, 9999-12-30/31, 2^31-second days, leap days, 1900, 1582, 1677/2262, '
+            'i.e. every pre-epoch day with every non-zero time of day), yyyy-mm-dd strings, raw CQL integers, util.Date built from each; timestamp as '
+            'naive datetime, aware datetime at UTC offsets 0, +5:30, -8, +14, -12, -0:01, int and float milliseconds (incl. int64 / 2^53 edges), '
+            'datetime.date for midnights, over every such day x whole-millisecond time of day; time as int, datetime.time, HH:MM:SS strings with 9 and '
+            'with the fewest fractional digits, util.Time built from each, at every unit edge +-1 ns; decimal as str (two spellings), int, float; '
+            'float/double as int; inet as ipaddress objects and exploded / upper-case / unpadded IPv6 spellings; blob as bytearray / memoryview; '
+            'out-of-range values given as those kinds (raw CQL date ints beyond uint32, time strings of 24 h, non-finite or over-scaled decimals as '
+            'float/str, ints beyond float32) must raise.',
     'note': 'The reference is cross-checked against the fixed vectors of tests/unit/test_marshalling.py and test_types.py '
             'and protocol-spec examples (vt.spec.values.selftest, run at the start of every run). Vector element widths '
             'are compared only where Cassandra 5\'s fixed length is unambiguous.',
@@ -777,9 +789,13 @@ def run(ctx):
                        'dimension 1..3) x every element size on an edge up to 2^21+1 x positions (sizes above the kind\'s threshold, 2^15 for most: alone and '
                        'last of two, versions 4 and 5 in the quick tier), %d direct size-writer/reader probes up to 2^31-1; non-trivial = '
                        'distinct (type, value, version) with a non-empty encoding other than the first (ordinary) value of the type, every vint-layer '
-                       'case, every range probe that raised, every size-writer probe >= 128' % (
+                       'case, every range probe that raised, every size-writer probe >= 128; input-kind layer: %d (scalar type, input kind, value) cases '
+                       '(per type and kind in input_kind_layer) x (8 versions at top level + versions %s inside list, tuple, map value), each one non-trivial; '
+                       '%d more range probes given as other input kinds x %d contexts x 8 versions' % (
                            [len(l) for l in levels], len(range_cases()), len(CONTEXTS), len(structural_cases()),
-                           len(G.vint_durations()), len(G.vint_vector_types()), 2 * len(size_writer_edges())))
+                           len(G.vint_durations()), len(G.vint_vector_types()), 2 * len(size_writer_edges()),
+                           sum(sum(d.values()) for d in ctx.cov['input_kind_layer']['cases_per_type_and_kind'].values()), list(KIND_INNER_PVS),
+                           len(kind_range_cases()), len(CONTEXTS)))
     ctx.cov['exhaustive'] = True
     ctx.assume('sets and maps are handed to the driver in the order Cassandra\'s comparator gives them (the server re-sorts bound '
                'collections; the driver writes its argument in iteration order) - ordering itself is not compared')
@@ -790,6 +806,13 @@ def run(ctx):
     ctx.assume('Cassandra never emits non-minimal vints or varints; such encodings are not generated for the decode direction')
     ctx.assume('validity rules that are not ranges are not probed: mixed-sign durations, UDT values with surplus fields, inet spellings accepted by inet_aton')
     ctx.assume('legacy zero-length ("empty") values of non-text types are not generated')
+    ctx.assume('input kinds whose CQL value is not decided by the type are not generated: aware datetimes for a date (UTC day or wall-clock day), '
+               'datetimes / floats with a fraction of a millisecond for a timestamp (Cassandra has no such value), integral floats for a decimal '
+               '(scale 0 or 1), floats whose shortest repr is not their exact value for a decimal, ints that a float32 cannot hold for a float, '
+               'bool for integer types, IPv4 spellings other than the dotted quad')
+    ctx.assume('strings that are malformed rather than out of range are not probed (time strings with a seconds field of 60 below 23:59:60, more than '
+               '9 fractional digits, dates without zero padding)')
+    ctx.assume('a timestamp beyond datetime\'s years (given as int/float) is compared in the encode direction only')
 
 
 def replay(ctx, data):
